@@ -28,8 +28,10 @@ class SimResult:
 
 
 def run_sim(exe, prog, mode="parallel", threads=2, ckpt=0, gvt=1000, tend=0, stats="-", displog="-",
-            trace_file=None, trace_mask=0, watchdog=20, timeout=60, ranks=1, delay=None, sched=None, sched_log=None, net=None):
+            trace_file=None, trace_mask=0, watchdog=20, timeout=60, ranks=1, delay=None, sched=None, sched_log=None, net=None, spin_ns=0):
     env = {"VERIF_WATCHDOG": str(watchdog)}
+    if spin_ns:
+        env["VERIF_EVENT_SPIN_NS"] = str(spin_ns)
     if delay:
         env["VERIF_DELAY"] = delay
     if net:
